@@ -13,11 +13,13 @@ def is_chacha(name):
 
 def is_cbc(name):
     # "-cbc" as a whole token of the name: aes128-cbc, 3des-cbc, cast128-12-cbc@ssh.com, des-cbc-ssh1, rijndael-cbc@lysator.liu.se
-    return re.search(r'-cbc($|[@-])', name) is not None
+    # (\Z, not $: a name may end in a line feed, and `$` would match in front of it)
+    return re.search(r'-cbc(\Z|[@-])', name) is not None
 
 
 def is_etm(name):
-    return re.search(r'-etm@', name) is not None
+    # the encrypt-then-MAC MACs are the ones OpenSSH defines: <mac>-etm@openssh.com, to the last octet
+    return name.endswith('-etm@openssh.com')
 
 
 def exposed(ciphers, macs):
